@@ -8,6 +8,7 @@ header getters. The "best match for the header" term is judged with the C12 orac
 entries as ICU4X reads them (trimmed)."""
 import itertools
 import json
+import zlib
 import subprocess
 
 from .. import probe
@@ -23,8 +24,8 @@ SETS = [
     {"default": "fr", "names": ["fr", "en"]},
     {"default": "en-US", "names": ["en-US", "en", "zh-Hant"]},
 ]
-HEADERS = [None, "fr", "fr-CA, fr;q=0.9, en;q=0.8", "fr-CA,fr;q=0.9,en;q=0.8", "de-CH, de;q=0.7", "xx, zz;q=0.5", "*", "en-US,en;q=0.9",
-           "not a header;;;", "zh-TW, zh-Hant;q=0.9, en;q=0.1", "xx, fr", "  en  "]
+HEADERS = [None, "fr", "fr-CA, fr;q=0.9, en;q=0.8", "fr-CA,fr;q=0.9,en;q=0.8", "de-CH, de;q=0.7", "xx, zz;q=0.5", "*, fr;q=0.8", "en_US.UTF-8, C, de", "*",
+           "en-US,en;q=0.9", "not a header;;;", "zh-TW, zh-Hant;q=0.9, en;q=0.1", "xx, fr", "  en  ", ", de", "es,,fr", "fr_FR, zh-Hant, en", "*;q=0.1, zh-Hant"]
 INVALID = ["xx", "EN", "", "fr-", "en_US", "default"]
 DEFAULT_COOKIE = "i18n_pref_locale"
 
@@ -58,10 +59,10 @@ def cases_for(si, S, rng, tier):
     out = []
     for cv, enabled, cname, hdr in itertools.product(cookie_values, [True, False], [None, "my_locale"], HEADERS):
         out.append({"kind": "root", "cookie": cv, "enabled": enabled, "cname": cname, "header": hdr})
-        if hdr in HEADERS[:6]:
+        if hdr in HEADERS[:8]:
             out.append({"kind": "resolve", "cookie": cv, "enabled": enabled, "cname": cname, "header": hdr})
-    for cv, cname, hdr, parent, initial, comp in itertools.product(cookie_values, [None, "sub_locale"], HEADERS[:7], [None] + names, [None, names[-1], names[0]], [False, True]):
-        if comp and (hash((cv, cname, hdr, parent, initial)) % 4) and tier == "quick":
+    for cv, cname, hdr, parent, initial, comp in itertools.product(cookie_values, [None, "sub_locale"], HEADERS[:9], [None] + names, [None, names[-1], names[0]], [False, True]):
+        if comp and (zlib.crc32(repr((cv, cname, hdr, parent, initial)).encode()) % 4) and tier == "quick":
             continue
         out.append({"kind": "sub", "cookie": cv, "cname": cname, "header": hdr, "parent": parent, "initial": initial, "component": comp})
     return out
